@@ -1,4 +1,5 @@
 import Qx.Proofs.C06
+import Qx.Proofs.Base64
 /-!
 # C06 — SASL exchanges follow their RFCs; a server that cannot prove itself is refused
 
@@ -189,6 +190,41 @@ theorem scram_verified_only_by_comparison (C : Crypto) (cr : Cred) (s : ScramSt)
           simp only [hc] at h
           simpa using h
       · left; simpa [scramStep, h0, h1, h2] using h
+
+/-- **The reference server is strict** (so "a conforming server accepts" is not satisfied by a lax reference).  Whatever
+the reference RFC 5802 server accepts is, byte for byte, `n,,<bare>` followed later by
+`c=biws,r=<issued nonce>,p=<the CANONICAL base64 of a proof>` where the proof opens the stored key; and its answer is
+`v=<base64 ServerSignature>`.  Rests on `Base64.eq_encode_of_decode?`: the strict decoder accepts only the
+encoder's image, so no second spelling of a proof (padding variants, stray bits, junk characters) is accepted. -/
+theorem ref_server_accepts_only_rfc_messages (C : Crypto) (rec : Ref.ScramRecord)
+    (clientFirstMsg serverFirstMsg nonce clientFinalMsg out : Bytes)
+    (h : Ref.scramServerFinal C rec clientFirstMsg serverFirstMsg nonce clientFinalMsg = some out) :
+    ∃ bare proof,
+      clientFirstMsg = [110, 44, 44] ++ bare
+      ∧ clientFinalMsg = Ref.clientFinalWithoutProof nonce ++ [44, 112, 61] ++ Base64.encode proof
+      ∧ C.H (xorBytes proof (C.HMAC rec.storedKey
+            (bare ++ [44] ++ serverFirstMsg ++ [44] ++ Ref.clientFinalWithoutProof nonce))) = rec.storedKey
+      ∧ out = [118, 61] ++ Base64.encode (C.HMAC rec.serverKey
+            (bare ++ [44] ++ serverFirstMsg ++ [44] ++ Ref.clientFinalWithoutProof nonce)) := by
+  unfold Ref.scramServerFinal at h
+  split at h
+  · rename_i bare proof64 hb hp
+    split at h
+    · rename_i proof hd
+      simp only at h
+      split at h
+      · rename_i hc
+        refine ⟨bare, proof, stripPrefix_some hb, ?_, hc.2, (Option.some.inj h).symm⟩
+        rw [stripPrefix_some hp, Base64.eq_encode_of_decode? _ _ hd]
+      · cases h
+    · cases h
+  · cases h
+
+/-- two client-final messages the reference server accepts for the same exchange and carrying the same proof bytes
+are the same message: acceptance does not depend on a spelling of the proof -/
+theorem ref_server_proof_spelling_unique (p₁ p₂ proof : Bytes)
+    (h₁ : Base64.decode? p₁ = some proof) (h₂ : Base64.decode? p₂ = some proof) : p₁ = p₂ :=
+  Base64.decode?_inj h₁ h₂
 
 /-! ## DIGEST-MD5 -/
 
